@@ -23,6 +23,7 @@
 # Import
 from __future__ import annotations
 
+import unicodedata
 from typing import Iterator, List, Optional, Sequence, Tuple, Union
 
 from bip_utils.bip.bip32.bip32_ex import Bip32PathError
@@ -36,6 +37,8 @@ class Bip32PathConst:
     HARDENED_CHARS: Tuple[str, str, str] = ("'", "h", "p")
     # Master character
     MASTER_CHAR: str = "m"
+    # Maximum number of significant decimal digits of a path element (2^32 - 1 has 10 digits)
+    ELEM_MAX_DIGITS: int = 10
 
 
 class Bip32Path:
@@ -243,5 +246,14 @@ class Bip32PathParser:
         # The remaining string shall be numeric
         if not path_elem.isdecimal():
             raise Bip32PathError(f"Invalid path element ({path_elem})")
+
+        # Redundant leading zeros are allowed; an element with more significant digits than a 32-bit index
+        # is out of range (and the interpreter refuses to convert very long decimal strings at all)
+        first_sig = 0
+        while first_sig < len(path_elem) - 1 and unicodedata.decimal(path_elem[first_sig]) == 0:
+            first_sig += 1
+        path_elem = path_elem[first_sig:]
+        if len(path_elem) > Bip32PathConst.ELEM_MAX_DIGITS:
+            raise Bip32PathError(f"Invalid path element ({path_elem[:32]}...)")
 
         return int(path_elem) if not is_hardened else Bip32KeyIndex.HardenIndex(int(path_elem))
